@@ -350,6 +350,9 @@ class SExecutor:
                 raise
             except BaseException as e:      # noqa: BLE001
                 fut._exc = e
+            # the function has returned (and released whatever it held); the future is published as done in a separate
+            # step of the worker thread, and other threads can run in between and still see done() == False
+            s.point('task returned, future not yet done')
             fut._done = True
 
         s.spawn(body, name)
